@@ -21,6 +21,8 @@ type propCheck struct {
 
 var props = map[string]*propCheck{}
 
+var knownPath string
+
 func register(id string, explanation string, assumptions []string, run func(w *World, r *Report)) {
 	props[id] = &propCheck{run: run, explanation: explanation, assumptions: assumptions}
 }
@@ -32,6 +34,7 @@ func main() {
 	verif := flag.String("verif", "/verif", "verification directory (evidence, known findings)")
 	list := flag.Bool("list", false, "list properties")
 	onlyRule := flag.String("rule", "", "print the obligations of one rule verbosely (replay)")
+	flag.StringVar(&knownPath, "known", "", "known-findings file (default <verif>/known_findings.txt)")
 	flag.Parse()
 
 	if *list {
